@@ -853,14 +853,16 @@ func TestVerifC31Enum(t *testing.T) {
 // engine: random
 
 func c31GenStep(t *rapid.T, size int) c31Step {
+	// rapid favours small numbers: the common class comes first
 	k := rapid.IntRange(0, 99).Draw(t, "kind")
 	switch {
-	case k < 12:
-		return c31Step{Kind: "status", Code: rapid.SampledFrom([]int{500, 502, 503, 503, 404, 416, 416, 403, 401, 402, 429, 400, 410}).Draw(t, "code")}
-	case k < 20:
-		return c31Step{Kind: "redirect", Code: rapid.SampledFrom([]int{301, 302, 303, 307, 308}).Draw(t, "code")}
-	case k < 30:
+	case k < 70:
+	case k < 82:
+		return c31Step{Kind: "status", Code: rapid.SampledFrom([]int{503, 500, 416, 404, 502, 403, 401, 402, 429, 400, 410}).Draw(t, "code")}
+	case k < 92:
 		return c31Step{Kind: "drop", Reset: rapid.IntRange(0, 3).Draw(t, "rst") == 0}
+	default:
+		return c31Step{Kind: "redirect", Code: rapid.SampledFrom([]int{302, 301, 303, 307, 308}).Draw(t, "code")}
 	}
 	s := c31Step{Kind: "serve"}
 	s.Honour = rapid.IntRange(0, 9).Draw(t, "honour") < 6
@@ -888,15 +890,15 @@ func c31GenStep(t *rapid.T, size int) c31Step {
 
 func c31Gen(t *rapid.T) c31Case {
 	c := c31Case{}
-	switch rapid.IntRange(0, 19).Draw(t, "sizeclass") {
-	case 0:
-		c.Size = rapid.IntRange(0, 1).Draw(t, "size")
-	case 1, 2:
-		c.Size = rapid.IntRange(4097, c31MaxSize).Draw(t, "size")
-	case 3, 4, 5:
-		c.Size = rapid.IntRange(65, 4096).Draw(t, "size")
-	default:
+	switch sc := rapid.IntRange(0, 19).Draw(t, "sizeclass"); {
+	case sc < 13:
 		c.Size = rapid.IntRange(2, 64).Draw(t, "size")
+	case sc < 16:
+		c.Size = rapid.IntRange(65, 4096).Draw(t, "size")
+	case sc < 18:
+		c.Size = rapid.IntRange(4097, c31MaxSize).Draw(t, "size")
+	default:
+		c.Size = rapid.IntRange(0, 1).Draw(t, "size")
 	}
 	c.Seed = rapid.Uint64Range(0, 1<<20).Draw(t, "seed")
 	c.PartialFlip = -1
@@ -906,25 +908,25 @@ func c31Gen(t *rapid.T) c31Case {
 		hi = 1
 	}
 	switch pk := rapid.IntRange(0, 99).Draw(t, "partial"); {
-	case pk < 15:
-		c.PartialLen = -1
-	case pk < 20:
-		c.PartialLen = 0
-	case pk < 47:
+	case pk < 28:
 		c.PartialLen = rapid.IntRange(1, hi).Draw(t, "plen")
-	case pk < 65:
+	case pk < 46:
 		c.PartialLen = rapid.IntRange(1, hi).Draw(t, "plen")
 		c.PartialFlip = flip()
-	case pk < 70:
-		c.PartialLen = c.Size
-	case pk < 80:
-		c.PartialLen = c.Size
-		c.PartialFlip = flip()
-	default:
+	case pk < 66:
 		c.PartialLen = c.Size + rapid.IntRange(1, c.Size+16).Draw(t, "pover")
 		if rapid.Bool().Draw(t, "pflipped") {
 			c.PartialFlip = flip()
 		}
+	case pk < 76:
+		c.PartialLen = c.Size
+		c.PartialFlip = flip()
+	case pk < 81:
+		c.PartialLen = c.Size
+	case pk < 95:
+		c.PartialLen = -1
+	default:
+		c.PartialLen = 0
 	}
 	n := rapid.IntRange(1, 8).Draw(t, "steps")
 	for i := 0; i < n; i++ {
@@ -934,7 +936,14 @@ func c31Gen(t *rapid.T) c31Case {
 	c.Retries = rapid.IntRange(2, 6).Draw(t, "retries")
 	c.LeavePartial = rapid.Bool().Draw(t, "leave")
 	c.NilOpts = rapid.IntRange(0, 9).Draw(t, "nilopts") == 0
-	c.Cache = rapid.SampledFrom([]string{"off", "off", "off", "off", "off", "off", "off", "off", "off", "off", "off", "off", "off", "off", "miss", "miss", "miss", "miss", "miss", "hit"}).Draw(t, "cache")
+	switch ck := rapid.IntRange(0, 19).Draw(t, "cache"); {
+	case ck < 14:
+		c.Cache = "off"
+	case ck < 19:
+		c.Cache = "miss"
+	default:
+		c.Cache = "hit"
+	}
 	c.Again = rapid.IntRange(0, 9).Draw(t, "again") < 7
 	return c
 }
